@@ -50,6 +50,11 @@ def case_m(text, spec):
     return "m =%s %s %s" % (esc(text), uw_field(text), spec)
 
 
+def case_l(items):
+    """items: list of (kind, text), kind '=' (text) or '~' (ObserverExpression parse(text))."""
+    return "l %s %s" % (uw_field(*[t for _, t in items]), " ".join(k + esc(t) for k, t in items))
+
+
 META_VALUES = {"T": True, "1": 1, "x": "x", "F": False, "0": 0, "E": "", "N": None}   # "A" = absent
 
 
@@ -57,6 +62,8 @@ def parse_case(case):
     w = case.split()
     if w[0] == "c":
         return "c", unesc(w[1][1:]), None, None
+    if w[0] == "l":
+        return "l", [(x[0], unesc(x[1:])) for x in w[2:]], None, None
     if w[0] == "m":
         return "m", unesc(w[1][1:]), w[3], None
     return "eq", unesc(w[1][1:]), unesc(w[2][1:]), (w[4] if len(w) > 4 else "none")
